@@ -131,6 +131,13 @@ def write(prop, tier, seed, run, out, samples, known_hit, reported, source):
         "violations": len(reported),
     }
     path = os.path.join(HERE, "evidence", f"{prop}.json")
+    if os.path.realpath(source.get("src", "/repo/src")) != "/repo/src":
+        # a run against a scratch copy (mutant / seeded change) must not overwrite the evidence
+        # of the registered check, which always comes from /repo itself
+        from . import fsseam
+
+        os.makedirs(os.path.join(fsseam.scratch_base(), "verif-scratch-evidence"), exist_ok=True)
+        path = os.path.join(fsseam.scratch_base(), "verif-scratch-evidence", f"{prop}.json")
     with open(path, "w") as fh:
         json.dump(doc, fh, indent=1, sort_keys=True)
     return path
